@@ -321,7 +321,7 @@ class SimplicialComplex(Hypergraph):
         if None in members:  # validate before the first write
             raise XGIError("None cannot be a node")
 
-        idx = next(self._edge_uid) if not idx else idx
+        idx = next(self._edge_uid) if idx is None else idx
 
         self._add_simplex(members, idx, **attr)
 
